@@ -326,6 +326,15 @@ func judge(c Case, w *vkit.W) {
 var unitTexts = append([]string{""}, ref.Units...)
 var badUnits = []string{"kb", "KB", "Kib", "kiB", "B ", " B", "iB", "b", "mB", "KiB ", "k", "E", "EiBB", "\x00", "é", "kB\n"}
 
+// every real unit with one extra byte in front, behind or inside: nothing but the 18 exact spellings is a unit
+func init() {
+	for _, u := range ref.Units {
+		for _, b := range []byte{0x00, 0x01, 0x7f, 0x80, 0xff, 'i', 'B', 'k', '0', '.', '\r'} {
+			badUnits = append(badUnits, string(b)+u, u+string(b), u[:1]+string(b)+u[1:], string([]byte{b, b})+u)
+		}
+	}
+}
+
 func f64(f float64) uint64 { return math.Float64bits(f) }
 func f32(f float32) uint64 { return uint64(math.Float32bits(f)) }
 
@@ -555,6 +564,23 @@ func TestCheck(t *testing.T) {
 			for _, sc := range coldScenarios {
 				r.RunCold(w, sc, false)
 				w.EvalRandom(vkit.Hash64("cold", sc), true)
+			}
+		})
+	})
+
+	r.Phase(fmt.Sprintf("W: %d conventional special texts (null, nil, unlimited, max, -1, ...) as whole texts and as units", len(ref.ConventionalTexts)), func() {
+		r.Serial(func(w *vkit.W) {
+			for _, text := range ref.ConventionalTexts {
+				for _, rule := range []int{0, 1, 8, 9} {
+					judge(Case{Kind: "text", Text: vkit.B(text), Rule: rule}, w)
+					w.EvalRandom(vkit.Hash64("W", text, strconv.Itoa(rule)), true)
+					judge(Case{Kind: "text", Text: vkit.B("1 " + text), Rule: rule}, w)
+					w.EvalRandom(vkit.Hash64("W1", text, strconv.Itoa(rule)), true)
+				}
+				for _, typ := range []string{"uint64", "float64", "int"} {
+					judge(Case{Kind: "new", Type: typ, Bits: 0, Unit: vkit.B(text)}, w)
+					w.EvalRandom(vkit.Hash64("Wn", text, typ), true)
+				}
 			}
 		})
 	})
